@@ -273,6 +273,10 @@ def handle (d : DState) (line : String) : Except String (DState × String) := do
         let dp := (censored nbt.toList).toArray
         let probs := mirjaliliRow c (fun d => dp.getD d 0) (fun _ => cat) order
         pure (d, s!"probs={fList fRat probs} sum={fRat (lsum probs)}")
+    | "fmt" => do
+        -- precision of the progress format for a threshold with floor(log10 thr) = e
+        let e ← pInt (← arg a "e"); let m ← pNat (← arg a "m")
+        pure (d, s!"decimals={decimalPlaces e m}")
     | "hendrixprobs" => do
         -- one row of Hendrix event probabilities for stock totals (x, y) from the primitive tables; also the specification row
         let pa := (← pList pRat (← arg a "pa")).toArray
